@@ -106,6 +106,9 @@ def judge(case, wd, sh, tier='quick'):
                 qlen = {str(m[0]): len(m[2]) for m in case['queries']}
                 sh.count('second-pass-fragments-logged', len([e for e in ev if int(e[4]) < qlen.get(e[2], 0)]))
         what = '%s -c %d %s%s' % (how, c, env.get('PYTHONHASHSEED', ''), ' jitter seed %s' % jseed if jseed is not None else '')
+        if r.error and r.error['type'] == 'HarnessTimeout':
+            sh.inconclusive.append('%s hit the harness wall-clock watchdog (%s) - not a verdict' % (what, r.error['msg']))
+            continue
         if r.error:
             sh.violation('run-aborts-for-some-worker-count', '%s aborted while -c 1 did not: %s' % (what, r.error['msg']), slim({'run': what}))
             continue
